@@ -3,6 +3,7 @@ package c03
 
 import (
 	"bytes"
+	"compress/gzip"
 	"fmt"
 	"net"
 	"net/http"
@@ -36,7 +37,7 @@ var (
 		"cookie may be added).")
 )
 
-func TestMain(m *testing.M) { vh.Main(m, rec1, rec2, rec3) }
+func TestMain(m *testing.M) { vh.Main(m, rec1, rec2, rec3, rec4) }
 
 type Interim struct {
 	Status int              `json:"status"`
@@ -57,6 +58,10 @@ type RespCase struct {
 	Declared   []bool           `json:"declared,omitempty"` // per trailer: announced in a Trailer field
 	DeclJoin   bool             `json:"decl_join,omitempty"`
 	PausesMs   []int            `json:"pauses_ms,omitempty"` // before head, between writes, before trailers
+	// Gzip: the body is a gzip stream and the response says so (Content-Encoding: gzip). NoAcceptEncoding: the client's
+	// request carries no Accept-Encoding field (otherwise "identity"); a relay must not decode the body either way.
+	Gzip             bool `json:"gzip_body,omitempty"`
+	NoAcceptEncoding bool `json:"no_accept_encoding,omitempty"`
 	// Wrapped: the agent runs with session tracking, websocket shim and banner enabled. For responses that carry no
 	// Set-Cookie and no HTML those features have nothing to do and must be transparent.
 	Wrapped bool `json:"agent_with_sessions_shim_banner,omitempty"`
@@ -172,9 +177,27 @@ func genCase(t *rapid.T, h2 bool) RespCase {
 			}
 		}
 		c.DeclJoin = rapid.Bool().Draw(t, "declJoin")
+		if !h2 && len(c.Trailers) > 0 && rapid.IntRange(0, 3).Draw(t, "sameNameHeader") == 0 {
+			// the same field name also as a header of the response (e.g. Server-Timing both up front and at the end)
+			c.Fields = append(c.Fields, vh.HeaderField{Name: c.Trailers[0].Name, Value: "sent-as-header"})
+		}
 	}
 	if rapid.IntRange(0, 3).Draw(t, "pauses") == 0 {
 		c.PausesMs = rapid.SliceOfN(rapid.SampledFrom([]int{0, 1, 5, 20, 60}), 1, 4).Draw(t, "pausesMs")
+	}
+	c.NoAcceptEncoding = rapid.IntRange(0, 2).Draw(t, "noAcceptEncoding") == 0
+	if rapid.IntRange(0, 5).Draw(t, "gzip") == 0 {
+		c.Gzip = true
+		if c.BodySize > 200000 {
+			c.BodySize = 200000
+		}
+		var keep []vh.HeaderField
+		for _, f := range c.Fields {
+			if !strings.EqualFold(f.Name, "Content-Encoding") {
+				keep = append(keep, f)
+			}
+		}
+		c.Fields = append(keep, vh.HeaderField{Name: "Content-Encoding", Value: "gzip"})
 	}
 	return c
 }
@@ -184,7 +207,23 @@ func (c *RespCase) bodiless() bool {
 }
 
 func (c *RespCase) body() []byte {
-	return vh.Payload(fmt.Sprint("c03-", c.Status, c.BodySize), c.BodySize)
+	p := vh.Payload(fmt.Sprint("c03-", c.Status, c.BodySize), c.BodySize)
+	if !c.Gzip {
+		return p
+	}
+	var b bytes.Buffer
+	zw := gzip.NewWriter(&b)
+	zw.Write([]byte(strings.Repeat("compressible text of a gzip-encoded response. ", 1+c.BodySize/47)))
+	zw.Write(p[:len(p)/8])
+	zw.Close()
+	return b.Bytes()
+}
+
+func (c *RespCase) acceptEncoding() string {
+	if c.NoAcceptEncoding {
+		return ""
+	}
+	return "Accept-Encoding: identity\r\n"
 }
 
 func (c *RespCase) declaredNames() []string {
@@ -389,6 +428,19 @@ func reason(code int) string {
 func classify(c *RespCase) (bool, []string) {
 	var cl []string
 	nt := false
+	for _, f := range c.Fields {
+		if len(c.Trailers) > 0 && f.Value == "sent-as-header" && !c.bodiless() {
+			cl = append(cl, "field-both-header-and-trailer")
+			nt = true
+		}
+	}
+	if c.Gzip {
+		cl = append(cl, "gzip-encoded-body")
+		if c.NoAcceptEncoding {
+			cl = append(cl, "gzip-encoded-body-for-a-request-without-accept-encoding")
+			nt = true
+		}
+	}
 	if len(c.Trailers) > 0 && !c.bodiless() {
 		cl = append(cl, "trailers")
 		nt = true
@@ -617,7 +669,7 @@ func runCaseOn(e *vh.E2E, t vh.TB, c *RespCase, mult int) vh.Outcome {
 	o := vh.Outcome{NonTrivial: nt, Classes: classes}
 	tok := e.NewToken()
 	e.Handle(tok, func(rq *vh.RawRequest, conn net.Conn) bool { return c.serveRaw(conn) })
-	req := fmt.Sprintf("%s /c03 HTTP/1.1\r\nHost: c03.example\r\nAccept-Encoding: identity\r\n%s: %s\r\n", c.Method, vh.TokenHeader, tok)
+	req := fmt.Sprintf("%s /c03 HTTP/1.1\r\nHost: c03.example\r\n%s%s: %s\r\n", c.Method, c.acceptEncoding(), vh.TokenHeader, tok)
 	if c.Wrapped {
 		req += "Accept: text/html,application/xhtml+xml,*/*;q=0.8\r\n" // a browser navigation: the banner handler looks at the response
 	}
@@ -717,7 +769,7 @@ func runCase2Once(t vh.TB, c *RespCase, mult int) vh.Outcome {
 		delete(s.cases, tok)
 		s.mu.Unlock()
 	}()
-	req := fmt.Sprintf("%s /c03 HTTP/1.1\r\nHost: c03.example\r\nAccept-Encoding: identity\r\n%s: %s\r\n", c.Method, vh.TokenHeader, tok)
+	req := fmt.Sprintf("%s /c03 HTTP/1.1\r\nHost: c03.example\r\n%s%s: %s\r\n", c.Method, c.acceptEncoding(), vh.TokenHeader, tok)
 	if c.Method == "POST" {
 		req += "Content-Length: 3\r\n\r\nabc"
 	} else {
